@@ -10,10 +10,13 @@ def main():
 
 %d changes written by %s sub-agents that were given only the text of one property and a scratch worktree (round 1: two per property for all
 20 properties; round 2: all 20 properties again with a request for larger shapes, unusual parameter combinations, cooperating edits at two
-sites, narrow numeric windows other than non-canonical operands, or AVX512-only branches).  Each was confirmed by `seedtest.sh` in a fresh worktree (applies to HEAD, the repository suite passes 30/30 with it,
+sites, narrow numeric windows other than non-canonical operands, or AVX512-only branches; round 3: six properties once more with a request for
+something different from both - placement/aliasing of the caller's buffers, thread counts that do not divide the work, sizes above 2^16,
+offset patterns, rarely used overloads, or edits that keep every value right but touch an element outside the designated positions).  Each was confirmed by `seedtest.sh` in a fresh worktree (applies to HEAD, the repository suite passes 30/30 with it,
 its demonstration fails with it and passes without it), then applied to /repo, the checks were run, and /repo was restored.  All are archived
 under `seeded/<name>/` (patch.diff, demonstration, build.sh, README.txt, meta.json); `seedcheck.sh` re-runs them all as a regression (every
-one must give exit 1 with a VIOLATION line, except the one change documented as NOT CAUGHT, which no property covers).  The notes column records what the first version of a check did when it did not catch the
+one must give exit 1 with a VIOLATION line, except the two changes documented as NOT CAUGHT, which no property covers: concurrent
+application threads inside a conversion function, and a call made during static initialisation).  The notes column records what the first version of a check did when it did not catch the
 change and what was strengthened; none of these changes is ever committed to /repo.
 
 | seeded change | breaks | needs to manifest | caught by (quick tier) | notes |
@@ -31,8 +34,12 @@ of two needs five columns) and size classes derived from the comparison constant
 half of round 2; (4) histories in C19 now include calls with a caller-provided buffer; (5) a check must never turn "the code is organised
 differently from what I expect" into a verdict: the structural expectations of C09 (one inversion, inverted value = norm), C10 (textbook Euclid
 loop, forwarding wrappers) and C15 (which string reaches GMP) now lead to a structure-independent argument or to native differential runs, and
-are violations only when a concrete call misbehaves (section 8.6).
-''' % (len(rows), 'forty', '\n'.join(rows))
+are violations only when a concrete call misbehaves (section 8.6); (6) round 3 showed three blind spots of a different kind and each got a
+general remedy rather than a special case: loop-free index helpers are decided for *all* widths (the bit reversal is proved for every width
+1..32, which reaches transforms of 2^17..2^32 points that no executed class can), in-place uses that a signature allows (result registers =
+operand registers; a by-reference scalar inside the result array) are obligations of their own, and a read outside the designated positions -
+which changes no value - is confirmed by running the native function with the operand ending at an inaccessible page.
+''' % (len(rows), 'forty-six', '\n'.join(rows))
     p = os.path.join(V, 'DESIGN.md'); s = open(p).read()
     i = s.find('### 8.5 Seeded changes'); j = s.find('### 8.6 ')
     tail = s[j:] if j >= 0 else ''
